@@ -28,6 +28,6 @@ InvTruncBytes == (cls.trunc > 0 /\ ~cls.reject /\ ~te /\ v \in {"True", "False"}
                     ((v = "True") <=> (LET a == Bytes(p) b == Bytes(q) IN
                         SubSeq(a, 1, IF Len(a) < cls.trunc THEN Len(a) ELSE cls.trunc) = SubSeq(b, 1, IF Len(b) < cls.trunc THEN Len(b) ELSE cls.trunc)))
 InvSize == h[1] = "ok" => Len(Bytes(p)) <= MaxLen
-InvNul == (cls.nul = "reject" /\ HasNul(Bytes(p))) => h[1] \in {"pending", "NullError", "SizeError"}
+InvNul == (cls.nul = "reject" /\ HasNul(Bytes(p))) => h[1] \in {"pending", "NullError", "NullOrTruncateError", "SizeError"}
 Emit == DoEmit => PrintT(<<"EMIT", ToJson([cls |-> cls.id, te |-> te, p |-> p, q |-> q', h |-> h'[1], v |-> v'])>>)
 =============================================================================
